@@ -875,7 +875,7 @@ func init() {
 			}
 		}
 		if d, ok := p.env.disks[path]; ok {
-			d.ents = nil
+			d.ents, d.tombs = nil, nil
 		}
 		p.env.effects = append(p.env.effects, effect{kind: "fs", path: path, remove: true})
 		return iface{}
@@ -913,7 +913,7 @@ func init() {
 			for _, n := range kvPseudoFiles(d) {
 				if n == filepath.Base(path) {
 					if n != "LOCK" && n != "KEYREGISTRY" && n != "DISCARD" {
-						d.ents = nil // the database's content is gone
+						d.ents, d.tombs = nil, nil // the database's content is gone
 					}
 					p.env.effects = append(p.env.effects, effect{kind: "fs", path: path, remove: true})
 					return iface{}
@@ -1180,7 +1180,7 @@ func fileLen(fr *frame, f value) int {
 		n := 0
 		for _, part := range x.parts {
 			if bp, ok := part.(*backupPayload); ok {
-				n += 16 + 8*len(bp.ents)
+				n += 16 + 8*len(bp.ents) + 4*len(bp.tombs)
 			} else if bs, ok := part.([]value); ok {
 				n += len(bs)
 			}
